@@ -30,8 +30,8 @@ MANIFEST = {
     "ref": "6.1 C01",
 }
 
-ENCODERS = [("lz4", 0), ("zstd", 0), ("null", 0)]
-ENC_THOROUGH = [("lz4", 0), ("lz4", 1), ("lz4", 12), ("zstd", 0), ("zstd", 1), ("zstd", 19), ("null", 0)]
+ENCODERS = [("lz4", 0), ("zstd", 0), ("null", 0), ("zstd,lz4,null", 0)]
+ENC_THOROUGH = [("lz4", 0), ("lz4", 1), ("lz4", 12), ("zstd", 0), ("zstd", 1), ("zstd", 19), ("null", 0), ("zstd,lz4,null", 0), ("lz4,zstd", 3)]
 
 
 def main():
@@ -72,7 +72,9 @@ def main():
         total = 0
         for ei, (enc, level) in enumerate(encs):
             sub = behs if (thorough or ei == 0) else [b for i, b in enumerate(behs) if (i + run.seed + ei) % 3 == 0]
-            root = os.path.join(sc, "replay-%s-%d" % (enc, level))
+            if "," in enc:      # mixed compressors only matter for histories with several sessions
+                sub = [b for b in sub if len(b) > 1] or sub
+            root = os.path.join(sc, "replay-%s-%d" % (enc.replace(",", "+"), level))
             os.makedirs(root)
             nsh = 8
             shards = [sub[i::nsh] for i in range(nsh)]
